@@ -1,6 +1,6 @@
 # C12 -- brace- and special-character-aware string primitives.
-# Model: coq/Model/BibtexStr.v; theorems: coq/Props/C12.v
-import itertools, random
+# Model: coq/Model/BibtexStr.v; spec: coq/Spec/BibtexStrSpec.v; theorems: coq/Props/C12.v
+import itertools, random, re, json, os
 from core import *
 
 ID = 'C12'
@@ -24,6 +24,41 @@ def impl_split(a):
 def impl_first_letter(a): return call_impl(_u().bibtex_first_letter, S(a[0]))
 def impl_abbreviate(a): return call_impl(_u().bibtex_abbreviate, S(a[0]), S(a[1][0]) if a[1] else None)
 
+BST = ['substring$', 'text.prefix$', 'text.length$', 'purify$', 'change.case$', 'width$', 'num.names$']
+def impl_bst(a):
+    """the same primitives as a .bst program reaches them: operands pushed in BST order on the
+    real interpreter's stack, the real builtin executed, the result popped"""
+    def run():
+        from pybtex.bibtex.interpreter import Interpreter
+        from pybtex.bibtex.builtins import builtins
+        it = Interpreter(None, None)
+        k = a[0]
+        it.push(S(a[1]))
+        if k == 0:
+            it.push(a[2]); it.push(a[3])
+        elif k == 1:
+            it.push(a[2])
+        elif k == 4:
+            it.push(S(a[4]))
+        builtins[BST[k]].execute(it)
+        r = it.pop()
+        if it.stack:
+            raise RuntimeError('builtin left %d extra values on the stack' % len(it.stack))
+        return r
+    return call_impl(run)
+
+def impl_pattern(a):
+    """the live module-level regex objects (and the separator literal of split_name_list)"""
+    import re as _re
+    u = _u(); k = a[0]; s = S(a[1])
+    if k == 0:
+        return norm(u.BIBTEX_SPACE_RE.split(s))
+    if k == 1:
+        return norm(u.purify_special_char_re.sub('', s))
+    if k == 2:
+        return norm(_re.compile(' [Aa][Nn][Dd] ').split(s))
+    return norm(list(u._find_closing_brace(s)))
+
 FUNCS = {
     1: ('scan_bibtex_string', impl_scan, ('T', 'S')),
     2: ('bibtex_len', impl_len, ('T', 'S')),
@@ -33,31 +68,49 @@ FUNCS = {
     6: ('change_case', impl_change_case, ('T', 'S', 'X')),
     7: ('bibtex_width', impl_width, ('T', 'S')),
     8: ('_find_closing_brace', impl_fcb, ('T', 'S')),
-    9: ('split_tex_string', impl_split, ('T', 'S', 'X', 'B', 'B')),
+    9: ('split_tex_string', impl_split, ('T', 'S', 'X', 'X', 'X')),
     10: ('bibtex_first_letter', impl_first_letter, ('T', 'S')),
     11: ('bibtex_abbreviate', impl_abbreviate, ('T', 'S', ('O', 'S'))),
+    13: ('regex objects BIBTEX_SPACE_RE / purify_special_char_re / name-list separator', impl_pattern, ('T', 'X', 'S')),
+    12: ('BST builtins substring$/text.prefix$/text.length$/purify$/change.case$/width$/num.names$', impl_bst, ('T', 'X', 'S', 'I', 'I', 'X')),
 }
 
 ALPHA = 'aB1 ~-{}\\,:'
 RULE = ('exhaustive: every string over the 11-letter alphabet {a B 1 space ~ - { } \\ , :} up to the length bound, each given to every '
-        'function (with every start/length/count in [-(n+2), n+2], every mode letter, the four separators x strip x filter_empty); '
-        'random: long strings over a wider alphabet (letters, digits, all Python whitespace, TeX punctuation), special characters, nesting to depth 105. '
+        'function (with every start/length/count in [-(n+2), n+2], every mode letter, the four separators x strip x filter_empty) and to the BST builtins; '
+        'random: long strings over a wider alphabet (letters, digits, all Python whitespace, TeX punctuation), special characters, nesting to depth 105; '
+        'malformed: token-level delete/duplicate/replace/truncate of the random strings; pattern_sweep: BIBTEX_SPACE_RE.split, purify_special_char_re.sub and the name-list separator against the hand-written matchers on all strings up to length 5/6 over per-pattern alphabets. '
         'distinct = distinct (function, argument); non-trivial = the string contains a brace or a backslash and the call succeeded.')
-EXHAUSTIVE = {'quick': 'all strings of length <= 3 (plus a seeded 25% sample of length 4) over an 11-letter alphabet x all functions x all integer arguments in [-(n+2), n+2]',
-              'thorough': 'all strings of length <= 5 over an 11-letter alphabet x all functions x all integer arguments in [-(n+2), n+2]'}
-TRUSTED_BASE = ['modelled (not verified) code: pybtex/bibtex/utils.py lines 96-604 (everything except wrap, which is C19)',
+EXHAUSTIVE = {'quick': 'all strings of length <= 3 over an 11-letter alphabet x all functions x all integer arguments in [-(n+2), n+2] (plus a seeded 15 % sample of length 4 with boundary integer arguments)',
+              'thorough': 'all strings of length <= 3 over an 11-letter alphabet x all functions x all integer arguments in [-(n+2), n+2]; all strings of length 4 and a seeded 2 % sample of length 5 with boundary integer arguments (memory bound: the harness keeps every case in memory, ~1.2 kB per case)'}
+TRUSTED_BASE = ['modelled (not verified) code: pybtex/bibtex/utils.py lines 96-604 (everything except wrap, which is C19) and the seven builtins of pybtex/bibtex/builtins.py that call it',
                 'regular expressions BIBTEX_SPACE_RE, BRACE_RE, purify_special_char_re and the separators are hand-written matchers, compared with the live re objects through the functions that use them on the exhaustive stream']
 ASSUMPTIONS = ['letter/digit classes and case mapping are modelled on ASCII; non-ASCII letters are outside the claimed domain (DESIGN.md 2.2)']
-PARTIAL = []
+PARTIAL = [
+    'prefix_shape (k = exact depth) is proved for every string that does not end inside a never-closed special character, prefix_closes for balanced strings; otherwise the code may close one brace only (finding C12-P1, prefix_closes_refuted); for all strings: prefix_is_prefix with k <= depth',
+    'split_never_in_braces is proved for balanced strings and for all strings whose groups are all closed; refuted otherwise (finding C12-S1, split_never_in_braces_refuted); split_reassemble holds for all strings',
+    'change_case_length / change_case_idem are proved for every string that does not end inside a never-closed special character (for those the scanner emits a closing brace that is not in the input: change_case_unbalanced_example, change_case_upto_case_all)',
+    'bibtex_abbreviate, _find_closing_brace and the BST builtins are tied by the correspondence only (the property text states no law about them); bibtex_width / bibtex_first_letter: additivity / shape theorems only',
+    'the separator regexes are hand-written matchers; agreement with the live re objects is tested (pattern sweep + through split_tex_string), not proved',
+]
 
 def describe(fn, a):
+    if fn == 13:
+        return {'pattern': ['BIBTEX_SPACE_RE.split', 'purify_special_char_re.sub', "' [Aa][Nn][Dd] '.split", '_find_closing_brace'][a[0]], 'string': S(a[1])}
+    if fn == 12:
+        return {'function': BST[a[0]], 'string': S(a[1]), 'args': [a[2], a[3], S(a[4])]}
     d = {'function': FUNCS[fn][0], 'string': S(a[0])}
     if len(a) > 1:
         d['args'] = a[1:]
     return d
 
+def canon(fn, out):
+    return out if fn == 13 else canon_res(out)
+
 def nontrivial(fn, a, out):
-    return out[0] == 0 and any(c in (123, 125, 92) for c in a[0])
+    if fn == 13:
+        return len(out) > 1 if a[0] in (0, 2) else out != a[1]
+    return out[0] == 0 and any(c in (123, 125, 92) for c in (a[1] if fn == 12 else a[0]))
 
 def cw_for(s):
     from pybtex.charwidths import charwidths
@@ -67,25 +120,290 @@ def model_arg(fn, a):
     # the charwidths table is data: regenerated from /repo on every run and passed to the model
     if fn == 7:
         return [a[0], cw_for(S(a[0]))]
+    if fn == 12:
+        return list(a[:5]) + [cw_for(S(a[1])) if a[0] == 5 else []]
     return a
 
-def cases_for(s, full=True):
+# ----------------------------------------------------------------------------------------
+# the property, in plain Python, independent of pybtex (used on the implementation's outputs)
+
+def depths(s):
+    """brace depth before every position and at the end; a closing brace without an opener does not count"""
+    d = 0; out = [0]
+    for c in s:
+        if c == '{':
+            d += 1
+        elif c == '}' and d > 0:
+            d -= 1
+        out.append(d)
+    return out
+
+def balanced(s):
+    d = 0
+    for c in s:
+        if c == '{':
+            d += 1
+        elif c == '}':
+            d -= 1
+            if d < 0:
+                return False
+    return d == 0
+
+def max_depth(s):
+    return max(depths(s))
+
+def items(s):
+    """top-level structure: ('c', i, i+1) ordinary character / stray closing brace at depth 0,
+    ('s', i, j, closed) special character s[i:j] = '{\\...}' , ('g', i, j, closed) brace group"""
+    i = 0; n = len(s); out = []
+    while i < n:
+        if s[i] == '{':
+            d = 1; j = i + 1
+            while j < n and d > 0:
+                if s[j] == '{':
+                    d += 1
+                elif s[j] == '}':
+                    d -= 1
+                j += 1
+            closed = d == 0
+            out.append(('s' if s[i + 1:i + 2] == '\\' else 'g', i, j, closed))
+            i = j
+        else:
+            out.append(('c', i, i + 1, True))
+            i += 1
+    return out
+
+def ends_in_open_special(s):
+    it = items(s)
+    return bool(it) and it[-1][0] == 's' and not it[-1][3]
+
+def spec_len(s):
+    """BibTeX text.length$: a special character counts once, braces never, everything else once"""
+    n = 0
+    for kind, i, j, closed in items(s):
+        if kind == 'c':
+            n += s[i] not in '{}'
+        elif kind == 's':
+            n += 1
+        else:
+            n += sum(1 for c in s[i:j] if c not in '{}')
+    return n
+
+def spec_substring(s, start, length):
+    """substring$ as in bibtex.web (x_substring)"""
+    n = len(s)
+    if length <= 0 or start == 0 or abs(start) > n:
+        return ''
+    if start > 0:
+        length = min(length, n - (start - 1))
+        return s[start - 1:start - 1 + length]
+    start = -start
+    length = min(length, n - (start - 1))
+    end = n - (start - 1)
+    return s[end - length:end]
+
+def one_to_one_case(s):
+    return all(len(c.lower()) == 1 and len(c.upper()) == 1 for c in s)
+
+SEP_RE = [re.compile(r'(?:\\ |\s|(?<!\\)~)+'), re.compile(','), re.compile('-'), re.compile(' [Aa][Nn][Dd] ')]
+
+def reassemble(s, pieces, sepk, filtered, dep=None):
+    """unfiltered: s = p1 S1 p2 ... S(n-1) pn;  filtered (empty pieces dropped): s = S* p1 S+ p2 ... S+ pn S*;
+    every S a match of the separator pattern (in the context of s) all of whose characters are at brace depth 0"""
+    dep = dep or depths(s)
+    pat = SEP_RE[sepk]
+    n = len(s)
+    def sep_ends(pos):
+        out = []
+        for e in range(pos + 1, n + 1):
+            if dep[e - 1] != 0 or dep[e] != 0:
+                break
+            if pat.fullmatch(s, pos, e):
+                out.append(e)
+        return out
+    memo = {}
+    if not filtered:
+        if not pieces:
+            return s == ''
+        def U(pos, k):
+            key = (pos, k)
+            if key not in memo:
+                memo[key] = False
+                p = pieces[k]
+                if s.startswith(p, pos):
+                    e = pos + len(p)
+                    if k + 1 == len(pieces):
+                        memo[key] = e == n
+                    else:
+                        memo[key] = any(U(e2, k + 1) for e2 in sep_ends(e))
+            return memo[key]
+        return U(0, 0)
+    def F(pos, k, had_sep):
+        key = (pos, k, had_sep)
+        if key not in memo:
+            memo[key] = False
+            r = any(F(e, k, True) for e in sep_ends(pos))
+            if not r:
+                if k == len(pieces):
+                    r = pos == n
+                elif had_sep and pieces[k] and s.startswith(pieces[k], pos):
+                    r = F(pos + len(pieces[k]), k + 1, False)
+            memo[key] = r
+        return memo[key]
+    return F(0, 0, True)
+
+def oracle(fn, a, out):
+    if fn == 13:
+        return None      # pattern conformance is a correspondence matter only
+    if fn == 12:
+        k = a[0]
+        if k == 4:
+            m = S(a[4])[:1].lower()
+            if m not in ('l', 'u', 't'):
+                return None if out[0] == 1 else 'change.case$ accepted mode %r' % S(a[4])
+            return oracle(6, [a[1], 'lut'.index(m)], out)
+        if k == 6:
+            if out[0] == 0:
+                so = impl_split([a[1], 3, 1, 0])
+                if so[0] == 0 and out[1] != len(so[1]):
+                    return 'num.names$ = %r but the name list splits into %d names' % (out[1], len(so[1]))
+            return crash_msg(out, S(a[1]))
+        m = {0: (4, [a[1], a[2], a[3]]), 1: (3, [a[1], a[2]]), 2: (2, [a[1]]), 3: (5, [a[1]]), 5: (7, [a[1]])}[k]
+        return oracle(m[0], m[1], out)
+    s = S(a[0])
+    m = crash_msg(out, s)
+    if m or out[0] != 0:
+        return m
+    r = out[1]
+    if fn == 1:
+        toks = [(S(t), l) for t, l in r]
+        if any(l < 0 for _, l in toks):
+            return 'negative brace level in %r' % (toks,)
+        if balanced(s):
+            if ''.join(t for t, _ in toks) != s:
+                return 'scan is not lossless on balanced %r: %r' % (s, toks)
+            dep = depths(s); pos = 0
+            for t, l in toks:
+                pos += len(t)
+                if l != dep[pos]:
+                    return 'token %r at offset %d of %r has level %d, brace depth there is %d' % (t, pos, s, l, dep[pos])
+    elif fn == 2:
+        if r != spec_len(s):
+            return 'bibtex_len(%r) = %r, text length is %d' % (s, r, spec_len(s))
+    elif fn == 3:
+        n = a[1]; p = S(r)
+        if n <= 0:
+            return None if p == '' else 'prefix of %r for n = %d <= 0 is %r, not empty' % (s, n, p)
+        if spec_len(p) != min(n, spec_len(s)):
+            return 'text length of prefix(%r, %d) = %r is %d, expected min(n, %d)' % (s, n, p, spec_len(p), spec_len(s))
+        tail = len(p) - len(p.rstrip('}'))
+        okp = False; isprefix = False
+        for k in range(0, tail + 1):
+            q = p[:len(p) - k]
+            if s.startswith(q):
+                isprefix = True
+                if depths(q)[-1] == k:
+                    okp = True
+        if not isprefix:
+            return 'prefix(%r, %d) = %r is not a prefix of the string followed by closing braces' % (s, n, p)
+        if not okp:
+            return 'prefix does not close the braces it opened: prefix(%r, %d) = %r' % (s, n, p)
+    elif fn == 4:
+        e = spec_substring(s, a[1], a[2])
+        if S(r) != e:
+            return 'substring(%r, %d, %d) = %r, BibTeX selects %r' % (s, a[1], a[2], S(r), e)
+    elif fn == 5:
+        p = S(r)
+        bad = [c for c in p if not (c.isalnum() or c == ' ')]
+        if bad:
+            return 'purify(%r) = %r contains %r' % (s, p, bad[0])
+        again = impl_purify([r])
+        if again != [0, r]:
+            return 'purify is not idempotent on %r: %r then %r' % (s, p, again)
+    elif fn == 6:
+        p = S(r)
+        if ends_in_open_special(s) or not one_to_one_case(s):
+            return None
+        if len(p) != len(s):
+            return 'change_case(%r, %s) = %r changes the length' % (s, 'lut'[a[1]], p)
+        if p.lower() != s.lower():
+            return 'change_case(%r, %s) = %r changes more than letter case' % (s, 'lut'[a[1]], p)
+        again = impl_change_case([r, a[1]])
+        if again != [0, r]:
+            return 'change_case is not idempotent on %r mode %s: %r then %r' % (s, 'lut'[a[1]], p, again)
+        dep = depths(s)
+        allowed = set()
+        for kind, i, j, closed in items(s):
+            if kind == 's':
+                inner_end = j - 1 if closed else j
+                pos = i + 1
+                for w in s[i + 1:inner_end].split(' '):
+                    if not w.startswith('\\'):
+                        allowed.update(range(pos, pos + len(w)))
+                    pos += len(w) + 1
+        for i, (x, y) in enumerate(zip(s, p)):
+            if x != y and dep[i] > 0 and i not in allowed:
+                return 'change_case(%r, %s) = %r changes %r at offset %d inside braces' % (s, 'lut'[a[1]], p, x, i)
+    elif fn == 9:
+        sepk, strip, fe = a[1], a[2], a[3]
+        pieces = [S(x) for x in r]
+        filtered = bool(fe) or sepk == 0
+        if not strip:
+            if not reassemble(s, pieces, sepk, filtered):
+                return 'split_tex_string(%r, %r, strip=False, filter_empty=%s) = %r: pieces and top-level separators do not re-assemble the string' % (s, SEPS[sepk], filtered, pieces)
+            if filtered and any(p == '' for p in pieces):
+                return 'empty piece although filter_empty: %r' % (pieces,)
+        else:
+            raw = impl_split([a[0], sepk, 0, 0 if sepk else 1])
+            if raw[0] != 0:
+                return None
+            exp = [S(x).strip() for x in raw[1]]
+            if filtered:
+                exp = [x for x in exp if x]
+            if exp != pieces:
+                return 'split_tex_string(%r, %r, strip=True, filter_empty=%s) = %r removes more than surrounding whitespace / empty pieces of %r' % (s, SEPS[sepk], filtered, pieces, [S(x) for x in raw[1]])
+    return None
+
+def crash_msg(out, s):
+    if out[0] == 2:
+        return 'raised a non-pybtex exception on %r' % (s,)
+    if out[0] == 1 and max_depth(s) <= 100:
+        return 'raised a BibTeX error on %r although braces nest only %d deep' % (s, max_depth(s))
+    return None
+
+# ----------------------------------------------------------------------------------------
+def cases_for(s, full=True, light=False):
+    """every modelled function on s.  full: all integer arguments in [-(n+2), n+2]; otherwise a boundary
+    set; light: a smaller boundary set and fewer flag combinations (thorough tier, length >= 4)"""
     n = len(s)
     yield (1, [s]); yield (2, [s]); yield (5, [s]); yield (8, [s]); yield (10, [s])
     yield (7, [s])
     for m in range(3):
         yield (6, [s, m])
-    rng_ = range(-(n + 2), n + 3) if full else [-(n + 1), -1, 0, 1, 2, n, n + 1]
-    for k in rng_:
+    if full:
+        rng_ = range(-(n + 2), n + 3)
+    elif light:
+        rng_ = [-(n + 1), -2, 0, 1, n]
+    else:
+        rng_ = [-(n + 1), -1, 0, 1, 2, n, n + 1]
+    for k in (rng_ if not light else [-1, 0, 1, 2, n - 1, n, n + 1]):
         yield (3, [s, k])
     for st in rng_:
         for ln in rng_:
             yield (4, [s, st, ln])
     for sep in range(4):
-        for strip in (0, 1):
-            for fe in (0, 1):
-                yield (9, [s, sep, strip, fe])
+        for strip, fe in ([(0, 0), (1, 1)] if light else [(0, 0), (0, 1), (1, 0), (1, 1)]):
+            yield (9, [s, sep, strip, fe])
     yield (11, [s, []]); yield (11, [s, ['.']]); yield (11, [s, ['']])
+    # through the BST builtins
+    for k in ((1, n) if light else (-1, 0, 1, 2, n)):
+        yield (12, [1, s, k, 0, ''])
+    yield (12, [0, s, -2, 3, ''])
+    if not light:
+        yield (12, [0, s, 2, 1, '']); yield (12, [0, s, 1, n, ''])
+    yield (12, [2, s, 0, 0, '']); yield (12, [3, s, 0, 0, '']); yield (12, [5, s, 0, 0, '']); yield (12, [6, s, 0, 0, ''])
+    for md in (('U', 'x') if light else ('l', 'U', 't', 'Title', '', 'x')):
+        yield (12, [4, s, 0, 0, md])
 
 WIDE = 'abcXYZ019 \t\n\xa0~-{}\\,:;.!?\'"`^$&%#_@()[]=+*/|<> andAND'
 def rand_string(rng):
@@ -93,11 +411,14 @@ def rand_string(rng):
     if k < 0.15:
         d = rng.choice([3, 50, 99, 100, 101, 105])
         return '{' * d + rng.choice(['x', '\\a', '']) + '}' * rng.choice([d, d, d - 1, 0])
+    if k < 0.2:
+        d = rng.choice([97, 98, 99, 100, 101])
+        return rng.choice(['', 'a ']) + '{\\x' + '{' * d + 'y' + '}' * rng.choice([d, d + 1, 0])
     parts = []
     for _ in range(rng.randint(0, 12)):
         r = rng.random()
         if r < 0.25:
-            parts.append('{\\' + rng.choice(["'e", 'ss', 'TeX book', '"{o}', 'v S', 'i', '', 'noopsort{1973b}', 'a B']) + rng.choice(['}', '}', '']))
+            parts.append('{\\' + rng.choice(["'e", 'ss', 'TeX book', '"{o}', 'v S', 'i', '', 'noopsort{1973b}', 'a B', 'X: {Y z} \\W q']) + rng.choice(['}', '}', '']))
         elif r < 0.4:
             parts.append('{' + ''.join(rng.choice(WIDE) for _ in range(rng.randint(0, 6))) + rng.choice(['}', '}', '}', '']))
         elif r < 0.5:
@@ -106,21 +427,169 @@ def rand_string(rng):
             parts.append(''.join(rng.choice(WIDE) for _ in range(rng.randint(1, 8))))
     return ''.join(parts)
 
+def mutate(s, rng):
+    if not s:
+        return rng.choice('{}\\')
+    i = rng.randrange(len(s)); k = rng.random()
+    if k < 0.3:
+        return s[:i] + s[i + 1:]
+    if k < 0.5:
+        return s[:i] + s[i] + s[i:]
+    if k < 0.8:
+        return s[:i] + rng.choice('{}\\ ~-') + s[i + 1:]
+    return s[:i]
+
+PINNED = ['', 'abc', 'a{b}c', '{\\', '{\\}', '{\\a', '{a', '}', '}{', 'ab{\\cd', "de la Vall{\\'e}e Poussin", '\\ ', 'a\\ b', 'a\\~b', 'a~b',
+          'What a Strange{ }and Bizzare Name! and Peterson', 'Jean--Pierre', '{\\TeX\\ and databases\\Dash\\TeX DBI}', 'And Now: BOOO!!!',
+          '{\\noopsort{1973a}}{\\switchargs{--90}{1968}}', 'a{b{c', 'a}b}c', '{{\\a}}', 'x: y: {\\Z z} {Z}',
+          '{\\{', 'a{\\b{c', '{a{b}c d', '{a{b}c, d and e', '{a{b}c-d', 'a{b}c d}e f', 'The {\\TeX book \\noop}', 'And {\\Now: {BOOO}!!!}',
+          'a:  B c:\tD', 'a:B C', '{\\a B}:{\\c D} E', 'abcdef', 'ab{cd}', 'ab{\\cd}', 'level 0 {1 {\\2}}', '{\\a}{\\b}c', '{}', '{}{\\a}', 'a{\\}b',
+          'x{y} and {z and w} AND v', ' and ', 'a and ', ' and and and ', 'a,,b,{c,d},', '-a--b-{-c-}-', '~a~~b\\ c\\~d ~']
+
+SWEEP = [(0, 'a ~\\\xa0\t'), (1, '\\aZ1 {'), (2, ' aAnNdDx')]
 def gen(tier, rng):
-    maxlen = 4 if tier == 'quick' else 5
-    for n in range(0, maxlen + 1):
+    quick = tier == 'quick'
+    # pattern conformance sweep: all strings up to the bound over a per-pattern alphabet
+    for k, alpha in SWEEP:
+        bound = (4 if k == 2 else 5) if quick else (5 if k == 2 else 6)
+        for n in range(0, bound + 1):
+            for tup in itertools.product(alpha, repeat=n):
+                yield ('pattern_sweep', 13, [k, ''.join(tup)])
+    for s in [' and ', 'a and b', 'a AND b and  c', ' And and ', 'x aNd y', 'a and', 'and b', ' and  and ']:
+        yield ('pattern_sweep', 13, [2, s])
+    for s in PINNED:
+        for fn, a in cases_for(s, full=len(s) <= 6):
+            yield ('pinned', fn, a)
+    for n in range(0, 5 if quick else 6):
         for tup in itertools.product(ALPHA, repeat=n):
             s = ''.join(tup)
-            if tier == 'quick' and n == 4 and rng.random() > 0.25:
-                continue
-            for fn, a in cases_for(s, full=(n <= 3 or tier != 'quick')):
+            if n >= 4:
+                # quick: 15 % of length 4; thorough: every string of length 4, 2 % of length 5
+                if quick and rng.random() > 0.15:
+                    continue
+                if not quick and n == 5 and rng.random() > 0.02:
+                    continue
+            for fn, a in cases_for(s, full=(n <= 3), light=(not quick and n >= 4)):
                 yield ('exhaustive', fn, a)
-    for s in ['', 'abc', 'a{b}c', '{\\', '{\\}', '{\\a', '{a', '}', '}{', 'ab{\\cd', "de la Vall{\\'e}e Poussin", '\\ ', 'a\\ b', 'a\\~b', 'a~b',
-              'What a Strange{ }and Bizzare Name! and Peterson', 'Jean--Pierre', '{\\TeX\\ and databases\\Dash\\TeX DBI}', 'And Now: BOOO!!!',
-              '{\\noopsort{1973a}}{\\switchargs{--90}{1968}}', 'a{b{c', 'a}b}c', '{{\\a}}', 'x: y: {\\Z z} {Z}']:
-        for fn, a in cases_for(s):
-            yield ('pinned', fn, a)
-    for i in range(800 if tier == 'quick' else 30000):
+    for i in range(700 if quick else 4000):
         s = rand_string(rng)
         for fn, a in cases_for(s, full=False):
             yield ('random', fn, a)
+        if i % 2 == 0:
+            t = s
+            for _ in range(rng.randint(1, 3)):
+                t = mutate(t, rng)
+            for fn, a in cases_for(t, full=False):
+                yield ('malformed', fn, a)
+
+# ----------------------------------------------------------------------------------------
+# known findings (listed in known_findings.d/C12.json)
+def _sig_p1(kind, fn, a, detail):
+    # bibtex_prefix of a string that ends inside an unclosed special character whose inner braces are still
+    # open, with n reaching the end of the string: the result is the whole string plus ONE closing brace
+    if fn == 12 and a[0] == 1:
+        fn, a = 3, [a[1], a[2]]
+    if kind != 'oracle' or fn != 3 or not str(detail).startswith('prefix does not close the braces it opened'):
+        return False
+    s = S(a[0])
+    it = items(s)
+    if not (it and it[-1][0] == 's' and not it[-1][3]):
+        return False
+    inner = s[it[-1][1] + 1:]
+    if not (depths(inner)[-1] > 0 and a[1] >= spec_len(s)):
+        return False
+    return impl_prefix(a) == [0, norm(s + '}')]
+
+def _sig_s1(kind, fn, a, detail):
+    # split_tex_string on a string with a never-closed top-level brace group that contains another brace:
+    # the text after the last brace is treated as top level.  The signature matches only if the pieces DO
+    # re-assemble under exactly that (defective) notion of depth, so any other splitting error still alarms.
+    if kind != 'oracle' or fn != 9 or 're-assemble' not in str(detail) or a[2]:
+        return False
+    s = S(a[0])
+    it = items(s)
+    if not (it and it[-1][0] in ('g', 's') and not it[-1][3]):
+        return False
+    i = it[-1][1]
+    last = max(s.rfind('{'), s.rfind('}'))
+    if last <= i:
+        return False
+    dep = depths(s)
+    dep = dep[:last + 1] + [0] * (len(s) - last)
+    out = impl_split(a)
+    if out[0] != 0:
+        return False
+    return reassemble(s, [S(x) for x in out[1]], a[1], bool(a[3]) or a[1] == 0, dep)
+
+KNOWN_SIGNATURES = {'C12-P1': _sig_p1, 'C12-S1': _sig_s1}
+
+def replay_known(k):
+    p = k.get('pinned')
+    if not p:
+        return None
+    fn, a = p['fn'], norm(p['arg'])
+    return oracle(fn, a, FUNCS[fn][1](a))
+
+# ----------------------------------------------------------------------------------------
+# thorough tier: extraction cross-checked against the kernel's evaluator.  A sample of the cases is
+# evaluated by `vm_compute` inside Coq (dispatch = the very term that is extracted) and compared with
+# what the extracted OCaml runner printed for the same cases.
+def _coq_sexp(v):
+    if isinstance(v, int):
+        return '(A (%d))' % v
+    return '(L [' + '; '.join(_coq_sexp(x) for x in v) + '])'
+
+def extra_checks(ck, tier, rng):
+    if tier != 'thorough':
+        return
+    import os, re as _re
+    sample = []
+    r2 = random.Random(ck.seed)
+    for i, (stream, fn, a) in enumerate(gen('quick', random.Random(ck.seed))):
+        if r2.random() < 0.0012 and len(sx(norm(a))) < 400:
+            sample.append((fn, norm(model_arg(fn, norm(a)))))
+    outs = ck.model.run(sample, ck.rundir, shards=1)
+    src = open(os.path.join(COQ, 'Extr', 'C12.v')).read()
+    src = _re.sub(r'^\s*(Require Extraction|Require Import ExtrOcamlBasic|Extraction [^\n]*)\.?\s*$', '', src, flags=_re.M)
+    lines = [src, 'Local Open Scope Z_scope.']
+    for i, ((fn, a), o) in enumerate(zip(sample, outs)):
+        lines.append('Example xc_%d : dispatch (%d) %s = %s. Proof. vm_compute. reflexivity. Qed.' % (i, fn, _coq_sexp(a), _coq_sexp(o)))
+    path = os.path.join(ck.rundir, 'XCheckC12.v')
+    open(path, 'w').write('\n'.join(lines) + '\n')
+    rc, log = coqc_file(path, ck.rundir)
+    fails = []
+    if rc != 0:
+        fails.append(('vm_compute evaluation of dispatch differs from the extracted runner (or the file failed to compile)', log[-1500:], False))
+    yield {'name': 'vm_compute_crosscheck', 'evaluations': len(sample), 'failures': fails,
+           'info': 'dispatch evaluated by vm_compute inside Coq on a sample of the quick stream equals the output of the extracted OCaml runner'}
+
+    # generator reach, measured: the implementation side of a sample of the quick stream under `coverage`,
+    # restricted to the anchored line ranges (function-body lines only: module-level lines ran at import)
+    try:
+        import coverage
+        u = _u()
+        import pybtex.bibtex.builtins as bmod
+        files = {u.__file__: [(96, 604)], bmod.__file__: [(133, 145), (233, 236), (246, 249), (259, 264), (278, 287), (312, 315)]}
+        cov = coverage.Coverage(include=list(files), data_file=None)
+        cov.start()
+        n = 0
+        r3 = random.Random(ck.seed)
+        for stream, fn, a in gen('quick', random.Random(ck.seed)):
+            if stream == 'pinned' or r3.random() < 0.02:
+                FUNCS[fn][1](norm(a)); n += 1
+        cov.stop()
+        info = {}
+        for f, ranges in files.items():
+            _, stmts, _, missing, _ = cov.analysis2(f)
+            src_lines = open(f).read().split('\n')
+            def body(l):
+                t = src_lines[l - 1]
+                return t.startswith('    ') and not t.lstrip().startswith(('def ', 'class ', '@'))
+            inr = lambda l: any(a <= l <= b for a, b in ranges)
+            st = [l for l in stmts if inr(l) and body(l)]
+            ms = [l for l in missing if inr(l) and body(l)]
+            info[os.path.basename(f)] = {'anchored_body_statements': len(st), 'not_executed': ms}
+        yield {'name': 'impl_line_coverage', 'evaluations': n, 'failures': [],
+               'info': 'anchored function-body statements executed by a sample of the streams: %s' % json.dumps(info)}
+    except Exception as e:
+        yield {'name': 'impl_line_coverage', 'evaluations': 0, 'failures': [], 'info': 'coverage measurement unavailable: %r' % (e,)}
